@@ -81,6 +81,7 @@ type historyPlan struct {
 	MinBatches, MaxBatches int
 	Interleave             bool   // batches of several signals on one producer
 	Big                    bool   // sizes crossing 65,535
+	FanCross               bool   // related records crossing 65,535 while the main record does not (gen.NewFanRamp)
 	Signal                 string // "" = drawn
 	Knobs                  gen.Knobs
 }
@@ -98,6 +99,10 @@ func genOptionHistory(t *rapid.T, plan historyPlan) (*StreamCase, *gen.Stream) {
 	s := gen.NewStream(t, plan.Knobs, nb)
 	r := gen.NewRamp(t, plan.Big)
 	richPct := rapid.SampledFrom([]int{0, 20, 50}).Draw(t, "richpct")
+	if plan.FanCross {
+		r = gen.NewFanRamp(t)
+		richPct = rapid.SampledFrom([]int{0, 0, 20}).Draw(t, "fanrichpct")
+	}
 	c := &StreamCase{}
 	for b := 0; b < nb; b++ {
 		s.B = b
@@ -195,7 +200,22 @@ func TestC04(t *testing.T) {
 				o.ResetThreshold = &v
 			}
 		}
-		c, _ := genOptionHistory(t, historyPlan{MinBatches: minb, MaxBatches: maxb, Big: big, Knobs: gen.InDomain()})
+		// "for all three signals" on one producer: a quarter of the histories
+		// interleave the signals (the sub-streams of the resource and scope
+		// attributes are then shared between the signals). The precondition of
+		// the known finding shared-writer-trailing-nul is excluded by
+		// construction there.
+		knobs := gen.InDomain()
+		interleave := !big && pct(t, "interleave", 25)
+		if interleave {
+			knobs.NoTrailingNUL = true
+		}
+		c, gs := genOptionHistory(t, historyPlan{MinBatches: minb, MaxBatches: maxb, Big: big, Interleave: interleave, Knobs: knobs})
+		if n := gs.Stats["excluded_trailing_nul"]; n > 0 {
+			for i := 0; i < n; i++ {
+				rec.Excluded("shared-writer-trailing-nul")
+			}
+		}
 		c.Options = o
 		res, err := RunStream(c, RunConfig{Decode: true, StopAtDecodeFail: true})
 		if err != nil {
@@ -203,6 +223,9 @@ func TestC04(t *testing.T) {
 		}
 		labels := append(optionLabels(o), transitionLabels(res)...)
 		labels = append(labels, "signal="+c.Batches[0].Signal)
+		if interleave {
+			labels = append(labels, "interleaved_signals")
+		}
 		late := false
 		for i, b := range res.Batches {
 			if i > 0 && b.SchemaUpdates > 0 {
